@@ -64,18 +64,19 @@ Theorem C07_sort_no_error : forall a b, modelled a = true -> modelled b = true -
 Proof. exact lt_defined. Qed.
 Print Assumptions C07_sort_no_error.
 
-(* pickle / copy / deepcopy: a term comes back as itself, provided a literal's lexical form is one the
-   constructor leaves alone (is_fixed) *)
-Theorem C07_pickle_partial : forall o t, wf_term t = true ->
-  (match t with Lit lex dt _ => is_fixed o lex dt lex = true | _ => True end) ->
-  same_as t (unpickle o t) = true.
-Proof. exact pickle_fixed. Qed.
-Print Assumptions C07_pickle_partial.
+(* pickle / copy / deepcopy: every well-formed term comes back as itself (the code as repaired for finding F7a:
+   __reduce__ passes normalize=False) *)
+Theorem C07_pickle : forall o t, wf_term t = true -> same_as t (unpickle o t) = true.
+Proof. exact pickle_same. Qed.
+Print Assumptions C07_pickle.
 
-(* ... and the full statement fails (finding F7a): a literal built with normalize=False *)
-Theorem C07_pickle_refuted : exists t, wf_term t = true /\ same_as t (unpickle [] t) = false.
-Proof. exact pickle_refuted. Qed.
-Print Assumptions C07_pickle_refuted.
+(* the text forms still rebuild through the normalising constructor (finding F7a, read-back part): a literal built
+   with normalize=False survives pickling but not from_n3(n3()) *)
+Theorem C07_n3_from_n3_nonnormal_refuted : exists t, wf_term t = true /\ tkf {| t_term := t; t_orc := [] |} = 1 /\
+  same_as t (match n3 t with Some s => from_n3 [] s | None => WRaise end) = false
+  /\ same_as t (unpickle [] t) = true.
+Proof. exact from_n3_nonnormal_refuted. Qed.
+Print Assumptions C07_n3_from_n3_nonnormal_refuted.
 
 (* the tie for the suite "laws": the checker evaluated on the implementation's answers accepts the model's *)
 Theorem C07_spec_ok_model : forall c, kf c = 0 -> spec_ok c (model_obs c) = true.
@@ -121,7 +122,7 @@ Proof. exact (conj mlt_irrefl (conj mlt_asym mlt_trans)). Qed.
 Print Assumptions C07_family_order_strict.
 
 (* the tie for the suite "text" (n3, from_n3, pickle of one term).  PARTIAL: the from_n3 round trip is proved
-   for IRIs (Latin-1), blank nodes, and literals whose lexical form needs no escape (no LF CR quote backslash,
+   for IRIs (Latin-1), blank nodes, variables, and literals whose lexical form needs no escape (no LF CR quote backslash,
    Latin-1) and is not an INF/NaN respelling; the remaining literals are covered by running only.
    Pickling is proved for every well-formed term. *)
 Theorem C07_text_spec_ok_model_partial : forall c,
@@ -138,22 +139,21 @@ Theorem C07_text_spec_ok_reads : forall c o, tspec_ok c o = true ->
 Proof. exact tspec_ok_reads. Qed.
 Print Assumptions C07_text_spec_ok_reads.
 
-(* from_n3(t.n3()) is not always t: findings F7b (backslash x), F7d (variables), F7e (backslash quote in a
-   multi-line literal), each with what the model - and rdflib - returns instead *)
-Theorem C07_n3_from_n3_bs_x_refuted : exists t, wf_term t = true /\ tkf {| t_term := t; t_orc := [] |} = 2 /\
-  from_n3_n3 [] t = WTerm (Lit [92; 65] None None) /\ same_as t (from_n3_n3 [] t) = false.
-Proof. exact from_n3_bs_x_refuted. Qed.
-Print Assumptions C07_n3_from_n3_bs_x_refuted.
+(* the former findings F7b (backslash x), F7d (variables) and F7e (backslash quote in a multi-line literal) are
+   repaired in the code and in the model: *)
+Theorem C07_n3_from_n3_repaired_examples :
+  from_n3_n3 [] (Lit [92; 120; 52; 49] None None) = WTerm (Lit [92; 120; 52; 49] None None)
+  /\ from_n3_n3 [] (Lit [92; 92; 120] None None) = WTerm (Lit [92; 92; 120] None None)
+  /\ from_n3_n3 [] (Var [120]) = WTerm (Var [120]).
+Proof. exact from_n3_fixed_examples. Qed.
+Print Assumptions C07_n3_from_n3_repaired_examples.
 
-Theorem C07_n3_from_n3_var_refuted : exists t, wf_term t = true /\
-  from_n3_n3 [] t = WTerm (BNd [63; 120]) /\ same_as t (from_n3_n3 [] t) = false.
-Proof. exact from_n3_var_refuted. Qed.
-Print Assumptions C07_n3_from_n3_var_refuted.
-
-Theorem C07_n3_from_n3_bs_quote_refuted : exists t, wf_term t = true /\ tkf {| t_term := t; t_orc := [] |} = 5 /\
-  from_n3_n3 [] t = WTerm (Lit [10; 34] None None) /\ same_as t (from_n3_n3 [] t) = false.
-Proof. exact from_n3_bs_quote_refuted. Qed.
-Print Assumptions C07_n3_from_n3_bs_quote_refuted.
+Theorem C07_n3_from_n3_bs_quote_repaired_examples :
+  from_n3_n3 [] (Lit [10; 92; 34] None None) = WTerm (Lit [10; 92; 34] None None)
+  /\ from_n3_n3 [] (Lit [92; 34; 10] None None) = WTerm (Lit [92; 34; 10] None None)
+  /\ from_n3_n3 [] (Lit [10; 34; 34; 34; 34] None None) = WTerm (Lit [10; 34; 34; 34; 34] None None).
+Proof. exact from_n3_bs_quote_fixed. Qed.
+Print Assumptions C07_n3_from_n3_bs_quote_repaired_examples.
 
 (* non-vacuity: a case with all four kinds, a tag differing in case and an integer literal passes the
    checker, and a non-trivial text case is inside the proved fragment *)
